@@ -1,13 +1,398 @@
-//! C18 — not implemented yet.
+//! C18 — console appender: tty_only, colour policy, SGR sequences, highlight resets.
+//!
+//! Three kinds of cases (see lean/Driver/C18.lean for the field layout):
+//!   style    all 243 `Style`s through the real `AnsiWriter(Vec<u8>)::set_style` (exhaustive, every run)
+//!   hl       random nested `{h(…)}` patterns × level through `PatternEncoder::encode` into an
+//!            `AnsiWriter(Vec<u8>)` (colour) or a `SimpleWriter(Vec<u8>)` (no colour)
+//!   console  a child process (`verif-harness child c18 <target> <tty_only>`) that builds a real
+//!            `ConsoleAppender` and appends one record per level; its stdout / stderr are each a
+//!            pseudo-terminal or a pipe (tools/pty_run.py), under each of the 27 settings of
+//!            NO_COLOR / CLICOLOR / CLICOLOR_FORCE (unset, "0", "1"). thorough: all 432 set-ups
+//!            (27 env × 2 × 2 stream kinds × 2 targets × 2 tty_only); quick: a covering subset that
+//!            contains every row of the F2 region.
+use crate::proto::*;
 use crate::rng::Rng;
+use log::{Level, Record};
+use log4rs::append::console::{ConsoleAppender, Target};
+use log4rs::append::Append;
+use log4rs::encode::pattern::PatternEncoder;
+use log4rs::encode::writer::ansi::AnsiWriter;
+use log4rs::encode::writer::simple::SimpleWriter;
+use log4rs::encode::{Color, Encode, Style, Write as EncodeWrite};
+use std::panic::AssertUnwindSafe;
+use std::path::PathBuf;
+use std::process::Command;
 
-pub fn gen(_rng: &mut Rng, _n: usize, _thorough: bool, _emit: &mut dyn FnMut(String)) {}
+const CHILD_PATTERN: &str = "{h({l} {m})}{n}";
+const ENV_VALS: [&str; 3] = ["-", "0", "1"];
+const VARS: [&str; 3] = ["NO_COLOR", "CLICOLOR", "CLICOLOR_FORCE"];
 
-pub fn exec(_fields: &[&str]) -> String {
-    "unimplemented".to_owned()
+fn color(n: u8) -> Color {
+    match n {
+        0 => Color::Black,
+        1 => Color::Red,
+        2 => Color::Green,
+        3 => Color::Yellow,
+        4 => Color::Blue,
+        5 => Color::Magenta,
+        6 => Color::Cyan,
+        _ => Color::White,
+    }
 }
 
-/// child-process entry point (`verif-harness child c18 …`), for checks that need process-global state
-pub fn child(_args: &[String]) -> i32 {
-    2
+fn level(n: u8) -> Option<Level> {
+    match n {
+        1 => Some(Level::Error),
+        2 => Some(Level::Warn),
+        3 => Some(Level::Info),
+        4 => Some(Level::Debug),
+        5 => Some(Level::Trace),
+        _ => None,
+    }
+}
+
+// ---------------------------------------------------------------------------------------------
+// generator
+// ---------------------------------------------------------------------------------------------
+
+/// the colour decision, used ONLY to select which console rows the quick tier runs
+/// (0 = auto, 1 = always, 2 = never)
+fn mode_for_selection(nc: &str, cc: &str, cf: &str) -> u8 {
+    if nc == "1" {
+        2
+    } else if cf == "1" {
+        1
+    } else if cc == "0" {
+        2
+    } else {
+        0
+    }
+}
+
+fn console_line(env: [&str; 3], tty_out: bool, tty_err: bool, target: &str, tty_only: bool) -> String {
+    format!(
+        "console\t{}\t{}\t{}\t{}\t{}\t{}\t{}",
+        env[0],
+        env[1],
+        env[2],
+        enc_bool(tty_out),
+        enc_bool(tty_err),
+        target,
+        enc_bool(tty_only)
+    )
+}
+
+/// target stream of the given kind, the other stream of the opposite kind (so that a check of the
+/// wrong file descriptor shows)
+fn console_target_kind(env: [&str; 3], target: &str, target_tty: bool, tty_only: bool) -> String {
+    let (o, e) = if target == "stdout" { (target_tty, !target_tty) } else { (!target_tty, target_tty) };
+    console_line(env, o, e, target, tty_only)
+}
+
+const TEXT_ALPHABET: &[&str] = &[
+    "a", "b", "Z", "0", "9", " ", ".", ":", "-", "_", "=", "[", "]", "m", ";", "é", "→", "\u{1F600}", "x", "y",
+];
+
+fn gen_chunks(rng: &mut Rng, depth: u32, max_depth: u32, out: &mut Vec<String>) {
+    let items = rng.range(if depth == 0 { 1 } else { 0 }, 3);
+    for _ in 0..items {
+        let r = rng.below(10);
+        // at the top level groups dominate, so that few patterns are group-free
+        if (r < 4 || (depth == 0 && r < 8)) && depth < max_depth {
+            out.push("H".to_owned());
+            gen_chunks(rng, depth + 1, max_depth, out);
+            out.push("E".to_owned());
+        } else if r < 6 {
+            out.push("L".to_owned());
+        } else {
+            let len = rng.range(1, 5);
+            let mut s = String::new();
+            for _ in 0..len {
+                let t: &&str = rng.pick(TEXT_ALPHABET);
+                s.push_str(t);
+            }
+            out.push(format!("T{}", enc_bytes(s.as_bytes())));
+        }
+    }
+}
+
+pub fn gen(rng: &mut Rng, n: usize, thorough: bool, emit: &mut dyn FnMut(String)) {
+    // 1. all 243 styles (exhaustive in both tiers)
+    let cols = ["-", "0", "1", "2", "3", "4", "5", "6", "7"];
+    for t in cols {
+        for b in cols {
+            for i in ["-", "1", "0"] {
+                emit(format!("style\t{}\t{}\t{}", t, b, i));
+            }
+        }
+    }
+    // 2. console matrix
+    let mut envs: Vec<[&str; 3]> = vec![];
+    for nc in ENV_VALS {
+        for cc in ENV_VALS {
+            for cf in ENV_VALS {
+                envs.push([nc, cc, cf]);
+            }
+        }
+    }
+    if thorough {
+        for env in &envs {
+            for tty_out in [true, false] {
+                for tty_err in [true, false] {
+                    for target in ["stdout", "stderr"] {
+                        for tty_only in [true, false] {
+                            emit(console_line(*env, tty_out, tty_err, target, tty_only));
+                        }
+                    }
+                }
+            }
+        }
+    } else {
+        // the ordinary interactive set-up and the ordinary redirected one
+        for target in ["stdout", "stderr"] {
+            for tty_only in [true, false] {
+                emit(console_line(["-", "-", "-"], true, true, target, tty_only));
+                emit(console_line(["-", "-", "-"], false, false, target, tty_only));
+            }
+        }
+        for env in &envs {
+            let mode = mode_for_selection(env[0], env[1], env[2]);
+            for target in ["stdout", "stderr"] {
+                match mode {
+                    // every row on which "colour writer obtained" and "is a terminal" differ (F2 region)
+                    2 => emit(console_target_kind(*env, target, true, true)),
+                    1 => emit(console_target_kind(*env, target, false, true)),
+                    _ => {
+                        // colour-neutral rows: restricted appender on a terminal and on a pipe
+                        emit(console_target_kind(*env, target, true, true));
+                        emit(console_target_kind(*env, target, false, true));
+                    }
+                }
+            }
+            // one unrestricted appender and one restricted non-F2 row per environment, drawn at random
+            let target = *rng.pick(&["stdout", "stderr"]);
+            emit(console_target_kind(*env, target, rng.chance(1, 2), false));
+            let target = *rng.pick(&["stdout", "stderr"]);
+            let tty = match mode {
+                2 => false,
+                1 => true,
+                _ => rng.chance(1, 2),
+            };
+            emit(console_line(*env, tty, tty, target, true));
+        }
+    }
+    // 3. nested highlight patterns
+    for k in 0..n {
+        let max_depth = if thorough { 1 + (k as u32 % 6) } else { 1 + (k as u32 % 4) };
+        let mut toks = vec![];
+        gen_chunks(rng, 0, max_depth, &mut toks);
+        let writer = if rng.chance(3, 4) { "ansi" } else { "simple" };
+        let lvl = rng.range(1, 5);
+        emit(format!("hl\t{}\t{}\t{}", writer, lvl, enc_list(",", &toks)));
+    }
+}
+
+// ---------------------------------------------------------------------------------------------
+// executor
+// ---------------------------------------------------------------------------------------------
+
+fn exec_style(t: &str, b: &str, i: &str) -> String {
+    let parse_col = |s: &str| -> Option<Option<u8>> {
+        if s == "-" {
+            Some(None)
+        } else {
+            s.parse::<u8>().ok().filter(|n| *n < 8).map(Some)
+        }
+    };
+    let (t, b) = match (parse_col(t), parse_col(b)) {
+        (Some(t), Some(b)) => (t, b),
+        _ => return "bad-case".to_owned(),
+    };
+    let i = match i {
+        "-" => None,
+        "1" => Some(true),
+        "0" => Some(false),
+        _ => return "bad-case".to_owned(),
+    };
+    let mut style = Style::new();
+    if let Some(c) = t {
+        style.text(color(c));
+    }
+    if let Some(c) = b {
+        style.background(color(c));
+    }
+    if let Some(x) = i {
+        style.intense(x);
+    }
+    let r = guarded(AssertUnwindSafe(|| {
+        let mut w = AnsiWriter(Vec::<u8>::new());
+        w.set_style(&style).map(|_| w.0)
+    }));
+    match r {
+        Ok(Ok(bytes)) => enc_bytes(&bytes),
+        Ok(Err(_)) => "ERR".to_owned(),
+        Err(_) => "PANIC".to_owned(),
+    }
+}
+
+fn pattern_of_tokens(toks: &[String]) -> Option<String> {
+    let mut p = String::new();
+    for t in toks {
+        match t.as_str() {
+            "H" => p.push_str("{h("),
+            "E" => p.push_str(")}"),
+            "L" => p.push_str("{l}"),
+            _ => {
+                let bytes = dec_bytes(t.strip_prefix('T')?)?;
+                p.push_str(&String::from_utf8(bytes).ok()?);
+            }
+        }
+    }
+    Some(p)
+}
+
+fn exec_hl(writer: &str, lvl: &str, toks: &str) -> String {
+    let lvl = match lvl.parse::<u8>().ok().and_then(level) {
+        Some(l) => l,
+        None => return "bad-case".to_owned(),
+    };
+    let pattern = match pattern_of_tokens(&dec_list(',', toks)) {
+        Some(p) => p,
+        None => return "bad-case".to_owned(),
+    };
+    let ansi = match writer {
+        "ansi" => true,
+        "simple" => false,
+        _ => return "bad-case".to_owned(),
+    };
+    let r = guarded(AssertUnwindSafe(|| {
+        let enc = PatternEncoder::new(&pattern);
+        if ansi {
+            let mut w = AnsiWriter(Vec::<u8>::new());
+            enc.encode(&mut w, &Record::builder().level(lvl).target("t").args(format_args!("msg")).build())
+                .map(|_| w.0)
+        } else {
+            let mut w = SimpleWriter(Vec::<u8>::new());
+            enc.encode(&mut w, &Record::builder().level(lvl).target("t").args(format_args!("msg")).build())
+                .map(|_| w.0)
+        }
+    }));
+    match r {
+        Ok(Ok(bytes)) => enc_bytes(&bytes),
+        Ok(Err(_)) => "ERR".to_owned(),
+        Err(_) => "PANIC".to_owned(),
+    }
+}
+
+/// tools/pty_run.py: `$VERIF_PTY_RUN`, else next to the scratch directory `check` passes
+/// (`$VERIF_SCRATCH/../tools`), else relative to the harness executable (`target/release/` → root)
+fn pty_helper() -> Option<PathBuf> {
+    let mut cands: Vec<PathBuf> = vec![];
+    if let Ok(p) = std::env::var("VERIF_PTY_RUN") {
+        cands.push(PathBuf::from(p));
+    }
+    if let Ok(s) = std::env::var("VERIF_SCRATCH") {
+        if let Some(root) = PathBuf::from(s).parent() {
+            cands.push(root.join("tools").join("pty_run.py"));
+        }
+    }
+    if let Ok(exe) = std::env::current_exe() {
+        if let Some(dir) = exe.parent() {
+            cands.push(dir.join("../../../tools/pty_run.py"));
+        }
+    }
+    cands.into_iter().find(|p| p.is_file())
+}
+
+fn exec_console(f: &[&str]) -> String {
+    let ok_env = |s: &str| s == "-" || s == "0" || s == "1";
+    let ok_bool = |s: &str| s == "0" || s == "1";
+    if !(ok_env(f[0]) && ok_env(f[1]) && ok_env(f[2]) && ok_bool(f[3]) && ok_bool(f[4]) && ok_bool(f[6]))
+        || !(f[5] == "stdout" || f[5] == "stderr")
+    {
+        return "bad-case".to_owned();
+    }
+    let helper = match pty_helper() {
+        Some(p) => p,
+        None => return "INFRA:tools/pty_run.py-not-found".to_owned(),
+    };
+    let exe = match std::env::current_exe() {
+        Ok(e) => e,
+        Err(_) => return "INFRA:current_exe".to_owned(),
+    };
+    let kind = |s: &str| if s == "1" { "tty" } else { "pipe" };
+    let mut cmd = Command::new("python3");
+    cmd.arg(&helper).arg(kind(f[3])).arg(kind(f[4])).arg("--").arg(&exe).args(["child", "c18", f[5], f[6]]);
+    // a controlled environment: the three variables exactly as the case says, nothing inherited
+    for (var, val) in VARS.iter().zip(f[0..3].iter()) {
+        cmd.env_remove(var);
+        if *val != "-" {
+            cmd.env(var, val);
+        }
+    }
+    cmd.stdin(std::process::Stdio::null());
+    match cmd.output() {
+        Ok(o) if o.status.success() => {
+            let s = String::from_utf8_lossy(&o.stdout);
+            let line = s.lines().next().unwrap_or("").trim().to_owned();
+            if line.starts_with("rc=") {
+                line
+            } else {
+                "INFRA:pty_run-output".to_owned()
+            }
+        }
+        Ok(_) => "INFRA:pty_run-failed".to_owned(),
+        Err(_) => "INFRA:python3-not-runnable".to_owned(),
+    }
+}
+
+pub fn exec(fields: &[&str]) -> String {
+    match fields {
+        ["style", t, b, i] => exec_style(t, b, i),
+        ["hl", w, l, toks] => exec_hl(w, l, toks),
+        [kind, rest @ ..] if *kind == "console" && rest.len() == 7 => exec_console(rest),
+        _ => "bad-case".to_owned(),
+    }
+}
+
+// ---------------------------------------------------------------------------------------------
+// child process: `verif-harness child c18 <stdout|stderr> <0|1>`
+// exit code 0 = all five appends returned Ok, 3 = panic, 4 = an append returned Err, 2 = usage
+// ---------------------------------------------------------------------------------------------
+pub fn child(args: &[String]) -> i32 {
+    if args.len() != 2 {
+        return 2;
+    }
+    let target = match args[0].as_str() {
+        "stdout" => Target::Stdout,
+        "stderr" => Target::Stderr,
+        _ => return 2,
+    };
+    let tty_only = match args[1].as_str() {
+        "1" => true,
+        "0" => false,
+        _ => return 2,
+    };
+    let r = guarded(AssertUnwindSafe(|| {
+        let appender = ConsoleAppender::builder()
+            .target(target)
+            .tty_only(tty_only)
+            .encoder(Box::new(PatternEncoder::new(CHILD_PATTERN)))
+            .build();
+        let mut failed = false;
+        for lvl in [Level::Error, Level::Warn, Level::Info, Level::Debug, Level::Trace] {
+            if appender
+                .append(&Record::builder().level(lvl).target("t").args(format_args!("msg")).build())
+                .is_err()
+            {
+                failed = true;
+            }
+        }
+        failed
+    }));
+    match r {
+        Ok(false) => 0,
+        Ok(true) => 4,
+        Err(_) => 3,
+    }
 }
